@@ -5,6 +5,7 @@ Two real ChannelManagers on an in-memory wire, two connections; a symbolic progr
 the deterministic loop and both sides' tables are compared with the harness' own model.
 """
 from vf.e1 import harness, untraced, concrete as C
+from vf import flags as _flags
 from vf import detloop
 from vf.props.l2capstub import Wire
 
@@ -198,3 +199,6 @@ def _waiters_concrete(closer, kind):
         wd.w.link_down(loop, 1)
         loop.run_ready()
         return t.done()
+
+
+_flags.int_format_placeholder = True     # log f-strings with symbolic ints are not the subject here (see vf/flags.py)
